@@ -1,7 +1,7 @@
 #!/bin/bash
 # C02 is built against a copy of package geojson whose map ranges are owned by the harness (overlay only).
 set -e
-cd /verif
+cd "$(dirname "$(readlink -f "$0")")/../.."
 go build -o .work/bin/instr ./tools/instr
 .work/bin/instr -out .work/c02 -maprange geojson 2>.work/c02.instr.log || { cat .work/c02.instr.log; exit 1; }
 go build -tags verif -overlay .work/c02/overlay.json -o "$1" ./checks/c02
